@@ -527,7 +527,7 @@ func tuplesJSON(set c04Set, seq []int) []string {
 func (c04) Describe(tier string) fw.Description {
 	return fw.Description{
 		Level: "model_checking",
-		Rule: "bounded-exhaustive enumeration on the real engine (deterministic schedule): " + fmt.Sprint(len(c04Sets)) + " tuple alphabets (0..3 grouping columns; strings with '|', ',', unit separator, the NULL marker text, empty string; numbers; NULL; missing; upper(k) and multi-argument function keys, aliased or not; mixed-case column names; a nested path) x 4 window kinds (tumbling event-time, CountingWindow(2), session, GLOBAL WINDOW TRIGGER WHEN count(*)>=2) x all row sequences of length 1..L over the alphabet; plus a pairwise collision search: every unordered pair of distinct tuples over a component alphabet (empty string, '|', '\\', unit separator and NULL alone / leading / trailing / doubled; 2 and 3 columns) fed as t1,t2,t1,t2 to every window kind, and key tuples that collide under join-with-a-middle and faulty-escaping encoders; TriggerWindow() with three groups open over all assignments of 6 rows (session, tumbling, sliding); 8 JOIN queries whose grouping columns come from the joined table or sit below the stream alias (2-4 path segments, aliased or not, LEFT JOIN) over all device sequences of length 1..4, with the expected column names; the delivered (group key, id set) multiset must equal the reference grouping keyed by typed tuples; non-trivial = at least two expected groups/deliveries",
+		Rule: "bounded-exhaustive enumeration on the real engine (deterministic schedule): " + fmt.Sprint(len(c04Sets)) + " tuple alphabets (0..3 grouping columns; strings with '|', ',', unit separator, the NULL marker text, empty string; numbers; NULL; missing; upper(k) and multi-argument function keys, aliased or not; mixed-case column names; a nested path) x 4 window kinds (tumbling event-time, CountingWindow(2), session, GLOBAL WINDOW TRIGGER WHEN count(*)>=2) x all row sequences of length 1..L over the alphabet; plus a pairwise collision search: every unordered pair of distinct tuples over a component alphabet (empty string, '|', '\\', unit separator and NULL alone / leading / trailing / doubled; 2 and 3 columns) fed as t1,t2,t1,t2 to every window kind, and key tuples that collide under join-with-a-middle and faulty-escaping encoders; TriggerWindow() with three groups open over all assignments of 6 rows (session, tumbling, sliding); 8 JOIN queries whose grouping columns come from the joined table or sit below the stream alias (2-4 path segments, aliased or not, LEFT JOIN) over all device sequences of length 1..4, with the expected column names; batches next to one whose aggregate argument panics (all sequences of length 6 over 2 keys x ordinary / panicking rows) report exactly their own groups; the delivered (group key, id set) multiset must equal the reference grouping keyed by typed tuples; non-trivial = at least two expected groups/deliveries",
 		Bounds:      map[string]any{"max_len": map[string]int{"quick": 4, "thorough": 6}, "tuple_sets": len(c04Sets), "window_kinds": c04Kinds},
 		Assumptions: []string{"NULL and missing are never mixed in one column of one alphabet (the property treats them as one group)", "one value type per grouping column"},
 	}
